@@ -23,7 +23,7 @@ META = {
              'Signature = (constructor, strict, length class, number of failures, failure positions class, outcome).'),
     'exhaustive_part': 'failing-subset enumeration complete for sequence lengths up to the stated bound',
     'workers': {'quick': 12, 'thorough': 16},
-    'watchdog': {'quick': 300, 'thorough': 1800},
+    'watchdog': {'quick': 600, 'thorough': 3600},
 }
 
 
